@@ -70,6 +70,7 @@ const (
 	leafSleep   = 60 // seconds a leaf lives if nobody kills it
 	returnBound = 10 * time.Second
 	settleBound = 5 * time.Second
+	slowBound   = 1500 * time.Millisecond // WaitDelay in the repaired code is 2 s; a prompt kill returns in 10-50 ms
 )
 
 var (
@@ -460,6 +461,14 @@ func execute(sc scenario) (res result) {
 		oldPids[q.Pid] = true
 	}
 	target := getP()
+	if hasBlockingStart {
+		select {
+		case <-callDone:
+			res.Inconclusive = "the call returned by itself before the stop request"
+			return
+		default:
+		}
+	}
 
 	// ---- the stop request
 	stopDone := make(chan struct{})
@@ -525,7 +534,7 @@ func execute(sc scenario) (res result) {
 		in, ex := split(ps)
 		n := 0
 		for _, q := range in {
-			if sc.Stop != "restart" || oldPids[q.Pid] {
+			if sc.Stop != "restart" || !res.Returned || oldPids[q.Pid] {
 				n++
 			}
 		}
@@ -595,6 +604,10 @@ func verdict(sc scenario, res result) (sig, what string) {
 		return "survivor:" + mode + ":" + shapeClass(sc.Tree), fmt.Sprintf("%d processes of the tree, still in the child's process group, are alive %v after the stop returned", res.Survivors, settleBound)
 	case res.IsOn:
 		return "ison-true:" + mode, "IsOn() is true after the stop returned"
+	case res.ReturnMs > slowBound.Milliseconds() && res.Exempt == 0 && !(exits(sc.Tree) && sc.Start != "start"):
+		// nothing outside the group holds the pipes: the return must come from the kill, not from the WaitDelay fallback
+		// (except under Execute when the direct child had exited before the request: Wait is then already past the watcher)
+		return "slow-return:" + mode, fmt.Sprintf("the call returned only %d ms after the stop request (the tree was not killed promptly; typical is 10-50 ms)", res.ReturnMs)
 	}
 	return "", ""
 }
@@ -666,6 +679,16 @@ func confirm(o outcome) bool {
 	return true
 }
 
+// confirmTogether runs a scenario three times at once (used for the deterministic replays of known findings, whose
+// failure is a blocked call and not a race) and reports the common signature, or "" if the three runs disagree.
+func confirmTogether(sc scenario) (outcome, bool) {
+	outs := runAll([]scenario{sc, sc, sc}, 3)
+	if outs[0].sig == outs[1].sig && outs[1].sig == outs[2].sig {
+		return outs[0], true
+	}
+	return outs[0], false
+}
+
 func leaf() node                      { return node{} }
 func fan(kids ...node) node           { return node{Kids: kids} }
 func with(n node, f func(*node)) node { f(&n); return n }
@@ -686,9 +709,14 @@ func genTree(r *h.Run, depth int) node {
 	return n
 }
 
+// holdsPipeInGroup: some descendant that does not end by itself holds the inherited pipes (so Execute stays blocked in Wait
+// after the direct child has exited)
 func holdsPipeInGroup(n node) bool {
 	for _, k := range n.Kids {
-		if !k.NoPipe && !k.Setsid {
+		if k.NoPipe {
+			continue
+		}
+		if !exits(k) || holdsPipeInGroup(k) {
 			return true
 		}
 	}
@@ -706,6 +734,9 @@ func admissible(sc scenario) bool {
 	}
 	if sc.Start == "supervisor" && (sc.Stop == "stop" || sc.Stop == "restart" || sc.Stop == "cancel") {
 		return false // the supervisor's own API is its context; stopping the inner command makes it restart it, by design
+	}
+	if sc.Start == "execute" && (sc.Stop == "stop" || sc.Stop == "restart") {
+		return false // known finding (Stop/Restart wait for the lock Execute holds): replayed first on every run, see findingReplays
 	}
 	return true
 }
@@ -741,6 +772,23 @@ func main() {
 		}
 		finish()
 		return
+	}
+
+	// deterministic replays of the known findings run first, on every invocation
+	d17r := fan(leaf(), leaf())
+	exitR := with(fan(leaf(), fan(leaf())), func(n *node) { n.Exit = true })
+	var replays []scenario
+	for _, t := range []node{leaf(), d17r, exitR} {
+		for _, sp := range []string{"stop", "restart"} {
+			replays = append(replays, scenario{Tree: t, Start: "execute", Stop: sp, DelayMs: -1})
+		}
+	}
+	var rwg sync.WaitGroup
+	rOut := make([]outcome, len(replays))
+	rOK := make([]bool, len(replays))
+	for i := range replays {
+		rwg.Add(1)
+		go func(i int) { defer rwg.Done(); rOut[i], rOK[i] = confirmTogether(replays[i]) }(i)
 	}
 
 	var scs []scenario
@@ -795,6 +843,22 @@ func main() {
 	}
 
 	outs := runAll(scs, 8)
+	rwg.Wait()
+	for i, o := range rOut {
+		r.Evals(3)
+		r.Count("finding-replay")
+		r.Distinct(key(o.sc))
+		if !rOK[i] {
+			r.Note("finding replay did not behave the same 3 times: " + key(o.sc))
+			continue
+		}
+		if o.sig != "" {
+			r.Fail(o.sig, o.wh, o.sc)
+		}
+		if o.res.Inconclusive == "" && o.res.StartErr == "" {
+			r.Case(coqCase(o.sc, o.res), o.sc)
+		}
+	}
 	var suspects []outcome
 	for i, o := range outs {
 		r.Eval()
